@@ -429,12 +429,20 @@ def part_B(run):
     drive_C16_uf.run_uf(run)
 
 
+def part_C(run):
+    from . import drive_C16_tree
+    drive_C16_tree.tree_part(run)
+
+
 def body(run: Run, replay):
     run.rule = ("A: TLC enumerates per-case (max,min) assignments over small alphabets incl. NaN and ties x all orders of adding the "
                 "cases (two- and one-column forms, 1-2 rows, 3-4 cases), exports every state; each complete order is replayed into "
                 "cla.extrema, time/frf_data_recovery and merge+form_extreme with the abstract state compared after every action "
                 "(values exact; labels/abscissae must name an attaining case). B: TLC enumerates call orders of uf tuples sharing one "
-                "cache; apply_uf replayed with cached = fresh bit-for-bit and the documented scaling as terms. distinct non-trivial = "
+                "cache; apply_uf replayed with cached = fresh bit-for-bit and the documented scaling as terms. C (specs/ResultsTree.tla): "
+                "hierarchies of events (2-3 levels) edited and re-enveloped: histories of form_extreme(doappend 0-3, case_order) / "
+                "delete_extreme / split+merge / del replayed on real DR_Results trees, the whole tree compared after every action. "
+                "distinct non-trivial = "
                 "(target, data, order) with at least two different cases")
     run.assumptions = ["one-column form semantics: column 1 = value of largest magnitude, column 2 = value of smallest magnitude (as in "
                        "the repository's own test_extrema_1)",
@@ -445,6 +453,8 @@ def body(run: Run, replay):
         alphas = [rec.get("alpha")] if rec.get("alpha") else []
         if alphas:
             part_A(run, alphas)
+        elif rec.get("shape"):
+            part_C(run)
         else:
             part_B(run)
         return
@@ -453,6 +463,7 @@ def body(run: Run, replay):
         alphas.append("two1w")
     part_A(run, alphas)
     part_B(run)
+    part_C(run)
 
 
 if __name__ == "__main__":
